@@ -730,7 +730,13 @@ func (c *Client) Do(ctx context.Context, q Query) (err error) {
 			select {
 			case <-ctx.Done():
 				return ctx.Err()
-			case v := <-colInfo:
+			case v, ok := <-colInfo:
+				if !ok {
+					// Receiver is done without column info (e.g. server
+					// exception): nothing to send, its result is what
+					// the query ends with.
+					return nil
+				}
 				info = v
 			}
 		}
